@@ -42,6 +42,7 @@ fn main() {
             "reader" => stream::run_reader(line),
             "hcobs" => hcobs_fam::run(line),
             "readn" => readn::run(line),
+            "hint" => readn::run_hint(line),
             "sdq" => sdq::run(line),
             "sod" => sod::run(line),
             "tlvv" => tlvv::run(line),
